@@ -4,10 +4,6 @@
 
 package length
 
-//@ func Length(g, df)
-//@   requires df != nil
-//@ func polygonLength(p, df)
-//@   requires df != nil
 
 // length of a line = sum of the distances of consecutive vertices, folded left to right from 0
 // (any distance function: uninterpreted; floats abstract: same rounded additions in the same order)
@@ -15,7 +11,37 @@ package length
 //@ func lineStringLength(ls, df)
 //@   floats abstract
 //@   purefuncs
-//@   pure
+//@   function
 //@   requires df != nil
 //@   ensures same(result, sumDist(ls, df, len(ls)))
 //@   loop 1: invariant 1 <= i && (i <= len(ls) || len(ls) == 0) && same(sum, sumDist(ls, df, i))
+
+// a polygon's boundary length is the left-to-right sum of its rings' lengths; the generic entry point
+// returns what the kind-specific computation returns: 0 for nil and point kinds, the line / ring
+// length, and the left-to-right sums over members for the multi kinds and collections
+//@ spec sumRings(p orb.Polygon, df orb.DistanceFunc, n int) float64 = ite(n <= 0, 0.0, sumRings(p, df, n-1) + sumDist(p[n-1], df, len(p[n-1])))
+//@ func polygonLength(p, df)
+//@   floats abstract
+//@   purefuncs
+//@   function
+//@   requires df != nil
+//@   ensures same(result, sumRings(p, df, len(p)))
+//@   loop 1: invariant -1 <= rangeindex && rangeindex < len(p) && same(sum, sumRings(p, df, rangeindex + 1))
+//@ spec sumLines(m orb.MultiLineString, df orb.DistanceFunc, n int) float64 = ite(n <= 0, 0.0, sumLines(m, df, n-1) + sumDist(m[n-1], df, len(m[n-1])))
+//@ spec sumPolys(m orb.MultiPolygon, df orb.DistanceFunc, n int) float64 = ite(n <= 0, 0.0, sumPolys(m, df, n-1) + sumRings(m[n-1], df, len(m[n-1])))
+//@ spec sumLens(c orb.Collection, df orb.DistanceFunc, n int) float64 = ite(n <= 0, 0.0, sumLens(c, df, n-1) + Length(c[n-1], df))
+//@ func Length(g, df)
+//@   floats abstract
+//@   purefuncs
+//@   allocates
+//@   function
+//@   requires df != nil
+//@   ensures g == nil || istype(g, orb.Point) || istype(g, orb.MultiPoint) ==> same(result, 0.0)
+//@   ensures istype(g, orb.LineString) ==> same(result, sumDist(as(g, orb.LineString), df, len(as(g, orb.LineString))))
+//@   ensures istype(g, orb.MultiLineString) ==> same(result, sumLines(as(g, orb.MultiLineString), df, len(as(g, orb.MultiLineString))))
+//@   ensures istype(g, orb.Polygon) ==> same(result, sumRings(as(g, orb.Polygon), df, len(as(g, orb.Polygon))))
+//@   ensures istype(g, orb.MultiPolygon) ==> same(result, sumPolys(as(g, orb.MultiPolygon), df, len(as(g, orb.MultiPolygon))))
+//@   ensures istype(g, orb.Collection) ==> same(result, sumLens(as(g, orb.Collection), df, len(as(g, orb.Collection))))
+//@   loop 1: invariant istype(old(g), orb.MultiLineString) && -1 <= rangeindex && rangeindex < len(as(old(g), orb.MultiLineString)) && same(sum, sumLines(as(old(g), orb.MultiLineString), df, rangeindex + 1))
+//@   loop 2: invariant istype(old(g), orb.MultiPolygon) && -1 <= rangeindex && rangeindex < len(as(old(g), orb.MultiPolygon)) && same(sum, sumPolys(as(old(g), orb.MultiPolygon), df, rangeindex + 1))
+//@   loop 3: invariant istype(old(g), orb.Collection) && -1 <= rangeindex && rangeindex < len(as(old(g), orb.Collection)) && same(sum, sumLens(as(old(g), orb.Collection), df, rangeindex + 1))
